@@ -495,6 +495,15 @@ pub fn check(cfg: &CheckCfg) -> i32 {
             Err(e) => harness_errors.push(format!("node leg: {}", e)),
             Ok(bad) => {
                 for (h, class, detail) in bad {
+                    // KF-C04-11: the only requested parser name that is missing is `__proto__`
+                    if class == "module-misses-requested-parser" && detail.get("missing").map(|m| m == &json!(["__proto__"])).unwrap_or(false) {
+                        if let Some(k) = findings.iter().find(|k| k.status == "open" && k.id == "KF-C04-11") {
+                            let line = format!("KNOWN-FINDING: property=C04 {} [{}]", k.what_fails, k.id);
+                            agg.kf_lines.entry(k.id.clone()).or_insert((line, 0)).1 += 1;
+                            *agg.stats.known_findings.entry(k.id.clone()).or_insert(0) += 1;
+                            continue;
+                        }
+                    }
                     if let Some((item, _)) = agg.codes.get(&h) {
                         if item.alias_cycle {
                             if let Some(k) = findings.iter().find(|k| k.status == "open" && k.property == "C04" && k.signature.get("kind").and_then(|x| x.as_str()) == Some("noncontractive-alias-cycle")) {
